@@ -867,9 +867,9 @@ package adt
 // struct or a list (validBound). This is where bounds are made: evaluate returns
 // a BoundValue only for an operand of orderable kind, or for == / != .
 //@ func (*OpContext).value
-//@   assumed A-int: evaluates an expression to a value; a scalar value evaluates to itself
+//@   assumed A-int: evaluates an expression to a value; a scalar value evaluates to itself; evaluation never changes an existing bytes or string value (values are immutable, C19)
 //@   ensures isNumV(x) || isStrV(x) || isBytesV(x) || isBoolV(x) || isNullV(x) ==> result == x
-//@   assigns heap except all BoundExpr.Op + all BoundExpr.Expr
+//@   assigns heap except all BoundExpr.Op + all BoundExpr.Expr + all Bytes.B + all String.Str
 //@ func isError
 //@   assumed A-int: type test for *Bottom
 //@   pure
